@@ -304,3 +304,51 @@ def op_jobs(ctx):
             jobs.append((f"{cq}.__init__", init.qualname, args, cfg, None, None))
         return run_jobs(prog, jobs), [j[0] for j in jobs]
     return ctx.cached("opjobs", build)
+
+
+def misc_jobs(ctx):
+    """add_schema (C18), serialisers (C12/C13/C11), documentation tree (C20)."""
+    def build():
+        prog = ctx.prog
+        cfg = {"newinit_guarded": newinit_guarded_set(prog), "deepcopy_root": None}
+        jobs = [
+            ("add_schema", "schema.Schema.add_schema", {"self": obj("schema.Schema", "S"), "schema": obj("schema.Schema", "T"), "root_path": obj("datapath.DataPath", "R")}, cfg, CONCRETE_SPLIT, None),
+            ("to_part_specs", "datapath.DataPath.to_part_specs", {"self": obj("datapath.DataPath", "path")}, cfg, None, None),
+            ("simplify", "datapath.DataPath.simplify", {"self": obj("datapath.DataPath", "path")}, cfg, None, None),
+            ("rule_to_json", "rules.Rule.to_json_like", {"self": obj("rules.Rule", "rule"), "args": mk("tuple", tup=()), "kwargs": mk("dict")}, cfg, None, None),
+            ("schema_to_json", "schema.Schema.to_json_like", {"self": obj("schema.Schema", "schema"), "args": mk("tuple", tup=()), "kwargs": mk("dict")}, cfg, None, None),
+            ("cond_to_json", "conditions.Condition.to_json_like", {"self": obj("conditions.Condition", "cond"), "args": mk("tuple", tup=()), "kwargs": mk("dict")}, cfg, None, None),
+            ("to_tree", "schema.Schema.to_tree", {"self": obj("schema.Schema", "schema"), "nested": BOOL, "from_path": join(NONE, mk("list", elem=mk("any", org=frozenset({("from_path", 1)})), org=frozenset({("from_path", 0)})))}, cfg, None, None),
+        ]
+        return run_jobs(prog, jobs)
+    return ctx.cached("miscjobs", build)
+
+
+def alias_rule(name, merged, receiver_root, source_roots, what):
+    """No *mutable container* reachable from a protected source may be stored into the
+    receiver (sharing it would let a later change of the receiver alter the source)."""
+    r = RuleResult(name, floor=1)
+    seen = set()
+    for e in merged.by_kind("store"):
+        torg = {tuple(o) for o in e.detail.get("target_org", [])}
+        if not any(o[0] == receiver_root for o in torg):
+            continue
+        val = e.detail.get("value", "")
+        vorg = {tuple(o) for o in e.detail.get("value_org", [])}
+        head_types = val.split("@")[0].split("!")[0].split("[")[0].split("=")[0]
+        is_container = any(t in ("list", "dict", "set") for t in head_types.split(","))
+        # origin of the stored object itself (before the first '[' of its rendering)
+        own = val.split("[")[0]
+        own_hit = [r_ for r_ in source_roots if f"@{r_}" in own or f",{r_}" in own.split("@")[-1]]
+        k = (e.func, e.text)
+        if k in seen:
+            continue
+        seen.add(k)
+        inst = {"site": f"{e.func}: {e.text}", "stored": val[:120]}
+        r.instances.append(inst)
+        if is_container and own_hit:
+            r.fail(Finding(name, f"R-ALIAS|{e.func}|{e.text}", f"{e.file}:{e.line}",
+                           f"`{e.text}` in {e.func} stores a mutable container of {what} ({val[:80]}) into the receiver: both now share it, so a later change through one alters the other", []))
+        else:
+            r.ok()
+    return r
